@@ -1262,7 +1262,8 @@ func (is *indexSearch) getTSIDsByTagFilterWithRegex(tf *tagFilter) (*uint64set.S
 	// eg, show series from mst where tagkey1 !~ /.*/
 	// eg, show tag values with key="tagkey1" where tagkey2 !~ /.*/
 	if tf.isAllMatch {
-		return nil, 0, nil
+		// no series, which is not the same as no restriction: searchTSIDsInternal skips a nil operand of AND
+		return &uint64set.Set{}, 0, nil
 	}
 
 	tsids, err := is.getTSIDsByMeasurementName(tf.name)
